@@ -198,6 +198,9 @@ class Gen:
         if ctor in ("in_range", "not_in_range"):
             if h:
                 lo, hi = self.any_value(), self.any_value()
+                # `x in range(l, u)` scans the range linearly for a non-int x: keep ranges small
+                if type(lo) in (int, bool) and type(hi) in (int, bool) and hi - lo > 1000:
+                    hi = lo + 7
             else:
                 lo = r.choice([0, 1, -2, 2, 3, True])
                 hi = r.choice([0, 2, 3, 5, 10, -1])
